@@ -4,8 +4,9 @@ Correspondence: the complete procedures are compared with the Lean model (Y0.Mod
 the input validators (error category), and for accepted inputs FAIL / Zero / the answer of Algorithm 2 (`ctftr
 uncond`: expression and simplified event, plus the flag `CtfTr.ctfTRuInClass` = "inside the decidable hypotheses of the
 proved value clause ctfTRu_sound_partial": an in-class case whose value the exact oracle rejects is a disagreement,
-whatever known-finding class its signature falls in) resp. Algorithm 3 (`ctftr cond`: the derivation of D* from the ancestral
-components, Algorithm 2 on D* with its own validator, the Fraction of line 4, the returned event, the five final checks;
+whatever known-finding class its signature falls in) resp. Algorithm 3 (`ctftr cond`: the flag `CtfTr.ctfTRInClass` =
+"inside the decidable hypotheses of the proved value clause ctfTR_sound_partial", tied to the oracle in the same way; the
+derivation of D* from the ancestral components, Algorithm 2 on D* with its own validator, the Fraction of line 4, the returned event, the five final checks;
 crashes of the known findings included, as category `internal`).  Expressions are compared structurally, then by exact
 value on the case's model family; events as multisets.  The models of SIMPLIFY, the ctf-factor factorisation and Tian's
 IDENTIFY are the `ctf` and `tian` families'.
